@@ -143,7 +143,8 @@ def run(chk):
     n = 30 if chk.quick else 500
     if chk.proof_broken or chk.corr_disagreements:
         n *= 4
-    specs = pitcheck.specs_for(chk, n, {'excl': True, 'p_excl': .2, 'unsupported': False, 'styles': ['min', 'mixed']})
+    specs = pitcheck.specs_for(chk, n, {'excl': True, 'p_excl': .2, 'unsupported': False, 'styles': ['min', 'mixed'],
+                                        'flags': 'random'})
     for r, assigns in pitcheck.run_nets(chk, specs):
         if r.get('harness_error'):
             raise RuntimeError('harness error on %s: %s %s' % (r['spec'], r['harness_error'], r.get('tb')))
